@@ -1,5 +1,5 @@
 """C04 (generated creation operators): RoProps/C04create proves every script generator regenerated from
-operator_creation.go (go/extract/gengen.go -> lean/RoGen/GenGen.lean: Of/Just, Start, Range, Repeat, FromSlice, Empty,
+operator_creation.go (go/extract/gengen.go -> lean/RoGen/GenGen.lean: Of/Just, Start, Range, RangeWithStep, Repeat, FromSlice, Empty,
 Throw) EQUAL, for all parameters, to the hand-written generator of RoModel/Ops/Create.lean that the C04 creation
 theorems are about. When `lake build RoProps.C04create` fails, `search` names the generator that changed (diff against
 the committed snapshot lean/RoGen/GenGen.snapshot) and points kind=create at that operator (thorough generator)."""
@@ -12,7 +12,7 @@ GEN = os.path.join(R.LEAN, 'RoGen', 'GenGen.lean')
 SNAP = os.path.join(R.LEAN, 'RoGen', 'GenGen.snapshot')
 
 MANIFEST = dict(
-    text="The synchronous creation operators Of/Just, Start, Range, Repeat, FromSlice, Empty, Throw are re-translated from operator_creation.go into Lean script generators on every run and proved equal, for all parameters (Range: for every fuel that covers |end - start|), to the hand-written generators the C04 creation theorems are about.",
+    text="The synchronous creation operators Of/Just, Start, Range, RangeWithStep, Repeat, FromSlice, Empty, Throw are re-translated from operator_creation.go into Lean script generators on every run and proved equal, for all parameters (Range: for every fuel that covers |end - start|), to the hand-written generators the C04 creation theorems are about.",
     technique="program translation (Go AST -> Lean definitions over statement combinators) + kernel-checked equality with the hand-written model",
     ref='5/C04')
 
@@ -78,7 +78,7 @@ def parts(ctx):
         ctx.violation('C04create: lean/RoGen/GenGen.lean or its snapshot is missing', 'missing ' + GEN + ' or ' + SNAP + '\n', no_input=True)
     elif ch and not getattr(ctx, 'lake_failed', None):
         ctx.notes.append('GenGen.lean differs from its snapshot for ' + ', '.join(o for o, _, _ in ch) + ' but all equalities still hold (run tools/opgen_snapshot.py)')
-    return dict(rule_part='7 creation-operator script generators regenerated from operator_creation.go and proved equal to the hand-written generators (all parameters)', search=search)
+    return dict(rule_part='8 creation-operator script generators regenerated from operator_creation.go and proved equal to the hand-written generators (all parameters)', search=search)
 
 
 def check(ctx):
